@@ -242,9 +242,9 @@ pub fn random_config(rng: &mut Rng, custom_scalars: &[String], layouts: bool, de
     let mut c = GenConfig::basic();
     c.mode = *rng.pick(&["with-loader-ts-5.0", "with-loader-ts-4.0", "standalone-ts-4.0"]);
     if layouts {
-        c.schema_output = Some(rng.s(&["./generated/schema.d.ts", "../gen/types/schema.d.ts", "./schema.d.ts", "./src/a/b/schema.d.ts", "../schema.d.ts"]).to_string());
+        c.schema_output = Some(rng.s(&["./generated/schema.d.ts", "../gen/types/schema.d.ts", "./schema.d.ts", "./src/a/b/schema.d.ts", "../schema.d.ts", "./generated/schema.generated.d.ts", "./src/graphql.schema.ts", "../gen/api.v2.d.mts", "./gen.d/schema.cts", "./generated/schema.d.d.ts"]).to_string());
         if rng.coin() {
-            c.resolvers_output = Some(rng.s(&["./generated/resolvers.d.ts", "../gen/resolvers.d.ts", "./src/resolvers.d.ts"]).to_string());
+            c.resolvers_output = Some(rng.s(&["./generated/resolvers.d.ts", "../gen/resolvers.d.ts", "./src/resolvers.d.ts", "./src/app.resolvers.d.ts", "./generated/resolvers.mts"]).to_string());
         }
         if rng.coin() {
             c.server_output = Some(rng.s(&["./generated/server.ts", "../gen/server-schema.js"]).to_string());
